@@ -1012,9 +1012,8 @@ class Interp:
             if target in (api.old, api.forall, api.exists, api.raised, api.implies, api.ite) and n.func.id not in f.locals:
                 return self._spec_form(n, f)
         if isinstance(n.func, ast.Name) and n.func.id == "super" and not n.args:
-            fn: Any = SuperProxy(self, f)
-        else:
-            fn = self.ev(n.func, f)
+            return SuperProxy(self, f)
+        fn: Any = self.ev(n.func, f)
         args: list = []
         for a in n.args:
             if isinstance(a, ast.Starred):
@@ -1238,8 +1237,11 @@ class Interp:
     def call_function(self, func: Any, args: list, kwargs: dict, n: Any, f: Frame,
                       defcls: Optional[type] = None) -> Any:
         """Call of a repository function: contract if it has one, else inline if marked transparent."""
-        if self.reg.qualname(func) in self.reg.concrete_ok and not ops.has_sym(args) and not ops.has_sym(kwargs):
-            return self._native(func, args, kwargs)
+        if _is_spec_function(func):
+            return self._inline(func, args, kwargs, defcls)
+        if (self.reg.qualname(func) in self.reg.concrete_ok or func.__module__ == "spsdk.utils.spsdk_enum") \
+                and not ops.has_sym(args) and not ops.has_sym(kwargs):
+            return self._native(func, args, kwargs)  # enum table look-ups on concrete arguments are plain data access
         con = self.reg.contract_for(func)
         if con is not None and not self.reg.may_inline(func):
             return self.reg.apply_contract(self, con, func, args, kwargs, f)
